@@ -1,29 +1,31 @@
 ---- MODULE TraceCpca ----
 (* Trace specification for C09, recorded by c09_drv.c.                                                                *)
-(* One model = Reset, Fit, Spectrum, Shares, Oracle, then per component k: Cpca, Truth, PcaRef; scaling 0: a final Scale. *)
+(* One model = Reset, Fit, Spectrum, Shares, Oracle, Proj, Proj2*, Mt, Slices*, Iters, then per component k: Cpca, Truth, *)
+(* PcaRef; scaling 0: a Scale; histories: a final Again.  Refit mode (outside the statement of C09, validated in a     *)
+(* trace of its own and reported as EXTRA-FINDING only): Reset, Fit, Refit.                                            *)
 (* From the logged oracle spectrum TLC computes the number of separated leading components and two bound sequences:   *)
 (* for CPCA's criterion (eps = sqrt(n*1e-18), floor 1e-7) and for PCA's (eps = sqrt(n*1e-10)).                         *)
 EXTENDS Cpca, TraceBase
 CONSTANT PropOnly
-VARIABLES l, sig, ncmp, bTc, bTp
-tvars == <<cvars, l, sig, ncmp, bTc, bTp>>
+VARIABLES l, sig, ncmp, bTc, bTp, cproc
+tvars == <<cvars, l, sig, ncmp, bTc, bTp, cproc>>
 Ev == Tr[l]
 Step == l' = l + 1 /\ UNCHANGED <<left, cok>>
 OracleTolC == 1000000
 
-TInit == CInit /\ l = 1 /\ sig = <<>> /\ ncmp = 0 /\ bTc = <<>> /\ bTp = <<>>
+TInit == CInit /\ l = 1 /\ sig = <<>> /\ ncmp = 0 /\ bTc = <<>> /\ bTp = <<>> /\ cproc = 1
 
 TReset == /\ l <= Len(Tr) /\ Ev.e = "Reset" /\ Step
-          /\ cphase \in {"Idle", "Comp", "Dropped"} /\ (cphase = "Comp" => ck = cnpc)       \* exactly npc components were reported
+          /\ cphase \in {"Idle", "Comp", "Dropped", "Refitted"} /\ (cphase = "Comp" => ck = cnpc)       \* exactly npc components were reported
           /\ cphase' = "Idle" /\ ck' = 0 /\ sumTotal' = 0 /\ lastTotal' = One /\ curTotal' = 0
-          /\ UNCHANGED <<cn, nb, cnpc, prevBlock, share, sig, ncmp, bTc, bTp>>
+          /\ UNCHANGED <<cn, nb, cnpc, prevBlock, share, nz, sig, ncmp, bTc, bTp, cproc>>
 TDropped == /\ l <= Len(Tr) /\ Ev.e = "Dropped" /\ Step /\ cphase \in {"Fit", "Spectrum"}
             /\ cphase' = "Dropped"
-            /\ UNCHANGED <<cn, nb, cnpc, ck, prevBlock, share, lastTotal, sumTotal, curTotal, sig, ncmp, bTc, bTp>>
+            /\ UNCHANGED <<cn, nb, cnpc, ck, prevBlock, share, nz, lastTotal, sumTotal, curTotal, sig, ncmp, bTc, bTp, cproc>>
 TFit == /\ l <= Len(Tr) /\ Ev.e = "Fit" /\ Step /\ cphase = "Idle"
         /\ PropFitC(Ev)
-        /\ cn' = Ev.n /\ nb' = Ev.blocks /\ cnpc' = Ev.npc /\ ck' = 0
-        /\ prevBlock' = [b \in 1..Ev.blocks |-> 0] /\ share' = [b \in 1..Ev.blocks |-> 0]
+        /\ cn' = Ev.n /\ nb' = Ev.blocks /\ cnpc' = Ev.npc /\ ck' = 0 /\ cproc' = Ev.nproc
+        /\ prevBlock' = [b \in 1..Ev.blocks |-> 0] /\ share' = [b \in 1..Ev.blocks |-> 0] /\ nz' = [b \in 1..Ev.blocks |-> 1]
         /\ lastTotal' = One /\ sumTotal' = 0 /\ curTotal' = 0 /\ cphase' = "Fit"
         /\ UNCHANGED <<sig, ncmp, bTc, bTp>>
 TSpectrum == /\ l <= Len(Tr) /\ Ev.e = "Spectrum" /\ Step /\ cphase = "Fit"
@@ -34,39 +36,75 @@ TSpectrum == /\ l <= Len(Tr) /\ Ev.e = "Spectrum" /\ Step /\ cphase = "Fit"
                     bp == BoundsPT(Ev.sig2, KKc * EpsPca9(cn), m)
                 IN ncmp' = m /\ bTc' = Floored(bc.t, CpcaFloor9) /\ bTp' = bp.t
              /\ sig' = Ev.sig2 /\ cphase' = "Spectrum"
-             /\ UNCHANGED <<cn, nb, cnpc, ck, prevBlock, share, lastTotal, sumTotal, curTotal>>
+             /\ UNCHANGED <<cn, nb, cnpc, ck, prevBlock, share, nz, lastTotal, sumTotal, curTotal, cproc>>
 TShares == /\ l <= Len(Tr) /\ Ev.e = "Shares" /\ Step /\ cphase = "Spectrum"
            /\ Len(Ev.share) = nb /\ \A b \in 1..nb : Ev.share[b] >= 0 /\ Ev.share[b] <= One
-           /\ share' = Ev.share /\ cphase' = "Shares"
-           /\ UNCHANGED <<cn, nb, cnpc, ck, prevBlock, lastTotal, sumTotal, curTotal, sig, ncmp, bTc, bTp>>
+           /\ Len(Ev.nz) = nb /\ \A b \in 1..nb : Ev.nz[b] \in {0, 1} /\ (Ev.nz[b] = 0 => Ev.share[b] = 0)
+           /\ \E b \in 1..nb : Ev.nz[b] = 1
+           /\ share' = Ev.share /\ nz' = Ev.nz /\ cphase' = "Shares"
+           /\ UNCHANGED <<cn, nb, cnpc, ck, prevBlock, lastTotal, sumTotal, curTotal, sig, ncmp, bTc, bTp, cproc>>
 TOracle == /\ l <= Len(Tr) /\ Ev.e = "Oracle" /\ Step /\ cphase = "Shares"
            /\ Ev.err <= OracleTolC
-           /\ cphase' = "Comp"
-           /\ UNCHANGED <<cn, nb, cnpc, ck, prevBlock, share, lastTotal, sumTotal, curTotal, sig, ncmp, bTc, bTp>>
+           /\ cphase' = "Proj"
+           /\ UNCHANGED <<cn, nb, cnpc, ck, prevBlock, share, nz, lastTotal, sumTotal, curTotal, sig, ncmp, bTc, bTp, cproc>>
+TProj == /\ l <= Len(Tr) /\ Ev.e = "Proj" /\ Step /\ cphase = "Proj"
+         /\ PropProj(cn, cnpc, nb, Ev)
+         /\ (PropOnly \/ ImplProj(cn, cnpc, nb, Ev))
+         /\ cphase' = "Mt"
+         /\ UNCHANGED <<cn, nb, cnpc, ck, prevBlock, share, nz, lastTotal, sumTotal, curTotal, sig, ncmp, bTc, bTp, cproc>>
+TProj2 == /\ l <= Len(Tr) /\ Ev.e = "Proj2" /\ Step /\ cphase = "Mt"
+          /\ PropProj2(cn, cnpc, ncmp, bTc, Ev)
+          /\ (PropOnly \/ ImplProj2(cnpc, Ev))
+          /\ UNCHANGED <<cn, nb, cnpc, ck, prevBlock, share, nz, lastTotal, sumTotal, curTotal, cphase, sig, ncmp, bTc, bTp, cproc>>
+TMt == /\ l <= Len(Tr) /\ Ev.e = "Mt" /\ Step /\ cphase = "Mt"
+       /\ (PropOnly \/ ImplMt(cproc, Ev))
+       /\ cphase' = "Slices"
+       /\ UNCHANGED <<cn, nb, cnpc, ck, prevBlock, share, nz, lastTotal, sumTotal, curTotal, sig, ncmp, bTc, bTp, cproc>>
+TSlices == /\ l <= Len(Tr) /\ Ev.e = "Slices" /\ Step /\ cphase = "Slices"
+           /\ PropSlices(Ev)                                       \* every index of the result has exactly one worker, however the code cuts
+           /\ (PropOnly \/ ImplSlices(cproc, Ev))                  \* and it cuts as KernelSlices says
+           /\ UNCHANGED <<cn, nb, cnpc, ck, prevBlock, share, nz, lastTotal, sumTotal, curTotal, cphase, sig, ncmp, bTc, bTp, cproc>>
+TIters == /\ l <= Len(Tr) /\ Ev.e = "Iters" /\ Step /\ cphase = "Slices"
+          /\ (PropOnly \/ ImplIters(cnpc, Ev))
+          /\ cphase' = "Comp"
+          /\ UNCHANGED <<cn, nb, cnpc, ck, prevBlock, share, nz, lastTotal, sumTotal, curTotal, sig, ncmp, bTc, bTp, cproc>>
 
 TCpca == /\ l <= Len(Tr) /\ Ev.e = "Cpca" /\ Step /\ cphase = "Comp"
          /\ ck < cnpc /\ Ev.k = ck + 1
-         /\ PropCpca(nb, prevBlock, share, lastTotal, sumTotal, Ev)
+         /\ PropCpca(nb, prevBlock, nz, share, lastTotal, sumTotal, Ev)
          /\ PropReproj(ncmp, bTc, Ev)
-         /\ (PropOnly \/ ImplCpca(Ev))
+         /\ (PropOnly \/ ImplCpca(ncmp, bTc, Ev))
          /\ ck' = ck + 1 /\ prevBlock' = Ev.blockVar /\ lastTotal' = Ev.totalVar /\ sumTotal' = sumTotal + Ev.totalVar /\ curTotal' = Ev.totalVar
          /\ cphase' = "Truth"
-         /\ UNCHANGED <<cn, nb, cnpc, share, sig, ncmp, bTc, bTp>>
+         /\ UNCHANGED <<cn, nb, cnpc, share, nz, sig, ncmp, bTc, bTp, cproc>>
 TTruth == /\ l <= Len(Tr) /\ Ev.e = "Truth" /\ Step /\ cphase = "Truth" /\ Ev.k = ck
           /\ PropTruth(cn, sig, ncmp, bTc, Ev)
+          /\ PropTruthBlocks(nb, nz, prevBlock, ncmp, bTc, Ev)        \* prevBlock = the block variances the Cpca event of this component reported
           /\ cphase' = "PcaRef"
-          /\ UNCHANGED <<cn, nb, cnpc, ck, prevBlock, share, lastTotal, sumTotal, curTotal, sig, ncmp, bTc, bTp>>
+          /\ UNCHANGED <<cn, nb, cnpc, ck, prevBlock, share, nz, lastTotal, sumTotal, curTotal, sig, ncmp, bTc, bTp, cproc>>
 TPcaRef == /\ l <= Len(Tr) /\ Ev.e = "PcaRef" /\ Step /\ cphase = "PcaRef" /\ Ev.k = ck
            /\ PropPcaRef(cn, ncmp, bTc, bTp, curTotal, Ev)
            /\ cphase' = "Comp"
-           /\ UNCHANGED <<cn, nb, cnpc, ck, prevBlock, share, lastTotal, sumTotal, curTotal, sig, ncmp, bTc, bTp>>
+           /\ UNCHANGED <<cn, nb, cnpc, ck, prevBlock, share, nz, lastTotal, sumTotal, curTotal, sig, ncmp, bTc, bTp, cproc>>
 
 TScale == /\ l <= Len(Tr) /\ Ev.e = "Scale" /\ Step /\ cphase = "Comp" /\ ck = cnpc
           /\ Len(Ev.terr) = cnpc
           /\ PropScale(cn, sig, ncmp, bTc, Ev)
-          /\ UNCHANGED <<cn, nb, cnpc, ck, prevBlock, share, lastTotal, sumTotal, curTotal, cphase, sig, ncmp, bTc, bTp>>
+          /\ UNCHANGED <<cn, nb, cnpc, ck, prevBlock, share, nz, lastTotal, sumTotal, curTotal, cphase, sig, ncmp, bTc, bTp, cproc>>
+TAgain == /\ l <= Len(Tr) /\ Ev.e = "Again" /\ Step /\ cphase = "Comp" /\ ck = cnpc
+          /\ Len(Ev.terr) = cnpc
+          /\ PropAgain(cn, sig, ncmp, bTc, Ev)
+          /\ (PropOnly \/ ImplAgain(Ev))
+          /\ UNCHANGED <<cn, nb, cnpc, ck, prevBlock, share, nz, lastTotal, sumTotal, curTotal, cphase, sig, ncmp, bTc, bTp, cproc>>
+(* outside the statement of C09 (EXTRA-FINDING only): CPCA() into a model object that already holds a fit gives the model a fresh object gets *)
+TRefit == /\ l <= Len(Tr) /\ Ev.e = "Refit" /\ Step /\ cphase = "Fit"
+          /\ Ev.shape = 1 /\ Len(Ev.terr) = cnpc /\ Len(Ev.verr) = cnpc /\ Len(Ev.berr) = cnpc
+          /\ \A i \in 1..cnpc : Ev.terr[i] <= 1000 /\ Ev.verr[i] <= 1000 /\ Ev.berr[i] <= 1000      \* 1e-6: same data, same algorithm
+          /\ cphase' = "Refitted"
+          /\ UNCHANGED <<cn, nb, cnpc, ck, prevBlock, share, nz, lastTotal, sumTotal, curTotal, sig, ncmp, bTc, bTp, cproc>>
 
-TNext == TScale \/ TReset \/ TDropped \/ TFit \/ TSpectrum \/ TShares \/ TOracle \/ TCpca \/ TTruth \/ TPcaRef
+TNext == TScale \/ TAgain \/ TReset \/ TDropped \/ TFit \/ TSpectrum \/ TShares \/ TOracle \/ TProj \/ TProj2 \/ TMt \/ TSlices \/ TIters
+         \/ TCpca \/ TTruth \/ TPcaRef \/ TRefit
 TSpec == TInit /\ [][TNext]_tvars
 TraceAccepted == Accepted
 Diag == ShowCursor(l)
